@@ -174,9 +174,32 @@ fn istream_cases(run: &mut Run, rng: &mut Rng, thorough: bool) {
         let long = k % 50 == 0;
         let nops = if long { rng.range(130, 200) } else { rng.range(1, 14) } as usize;
         let mut next: u16 = 0;
+        // a third of the sequences start just below the SSN wrap
+        if k % 3 == 1 {
+            for hop in [30_000u16, 60_000, 65_533] {
+                s.advance_ssn_to(hop);
+                ops.push(format!("a,{hop}"));
+                outs.push(format!("[]{}/-", s.next_ssn()));
+            }
+            next = s.next_ssn();
+        }
+        let inorder_run = k % 10 == 7;
+        let mut own_ssn: u16 = next; // the sender's view of the next SSN, independent of the implementation
         for _ in 0..nops {
-            let r = rng.below(100);
-            let (op, delivered): (String, Vec<Bytes>) = if r < 70 {
+            let r = if inorder_run { 0 } else { rng.below(100) };
+            let (op, delivered): (String, Vec<Bytes>) = if inorder_run {
+                // the property itself on the resequencer: the next expected SSN is delivered at once, alone
+                let dl = rng.range(0, 3) as usize;
+                let data = rng.bytes(dl);
+                let ssn = own_ssn;
+                own_ssn = own_ssn.wrapping_add(1);
+                let d = s.enqueue(ssn, Bytes::from(data.clone()));
+                if d.len() != 1 || d[0].as_ref() != data.as_slice() {
+                    run.fail("istream:in-order-message-not-delivered-exactly-once", &format!("istream {} e,{ssn},{}", ops.join(" "), hex(&data)),
+                        &format!("ssn {ssn}: {} messages came out", d.len()));
+                }
+                (format!("e,{ssn},{}", hex(&data)), d)
+            } else if r < 70 {
                 let ssn = if long { next.wrapping_add(1 + rng.below(190) as u16) }
                     else if rng.chance(1, 2) { next } else { next.wrapping_add(rng.below(5) as u16).wrapping_sub(1) };
                 let dl = rng.below(4) as usize;
@@ -459,8 +482,24 @@ fn link_cases(args: &Args, rng: &mut Rng) -> Vec<LinkCase> {
             }
         }
     }
+    // a duplicate of a chunk that is being held out of order; a retransmission racing its SACK
+    for f in ["A.TSN.1.dropn1+A.DATA.3.dup", "A.TSN.0.dropn1+A.DATA.2.dup+A.DATA.4.late2", "A.TSN.2.dropn2+B.SACK.2.drop"] {
+        v.push(LinkCase { name: format!("directed-{f}"), case: mk_case(&wl[4], faults_parse(f), None) });
+        v.push(LinkCase { name: format!("directed-{f}-w"), case: mk_case(&wl[6], faults_parse(f), Some(0xFFFF_FFFD)) });
+    }
+    // thorough: every pair of faults on the four setup chunks
+    if args.tier_thorough {
+        let setup: Vec<(usize, u8)> = vec![(0, 1), (1, 2), (0, 10), (1, 11)];
+        let mut singles = vec![];
+        for (side, ct) in &setup { for a in actions { singles.push(Fault { side: *side, ctype: *ct, ordinal: 1, action: a }); } }
+        for i in 0..singles.len() { for j in (i + 1)..singles.len() {
+            if singles[i].side == singles[j].side && singles[i].ctype == singles[j].ctype { continue; }
+            v.push(LinkCase { name: format!("double-{}+{}", singles[i].text(), singles[j].text()),
+                case: mk_case(&wl[6], vec![singles[i].clone(), singles[j].clone()], if (i + j) % 2 == 0 { None } else { Some(0xFFFF_FFFC) }) });
+        } }
+    }
     // random multi-fault histories
-    let nrand = if args.tier_thorough { 600 } else { 40 };
+    let nrand = if args.tier_thorough { 2000 } else { 40 };
     for k in 0..nrand {
         let w = wl[rng.below(wl.len() as u64) as usize].clone();
         let nf = rng.range(2, 5) as usize;
@@ -481,6 +520,48 @@ fn link_cases(args: &Args, rng: &mut Rng) -> Vec<LinkCase> {
 
 pub fn run(args: &Args) {
     if let Some(case) = &args.replay {
+        // function-level cases: `gap <cum> <tsns>`, `sack …`, `istream op…`
+        let toks: Vec<&str> = case.split_whitespace().collect();
+        match toks.first().copied() {
+            Some("gap") if toks.len() == 3 => {
+                let held: Vec<u32> = if toks[2] == "-" { vec![] } else { toks[2].split(',').filter_map(|t| t.parse().ok()).collect() };
+                let mut run = Run::new("c01", &format!("{}/replay", args.out));
+                emit_gap(&mut run, &held, toks[1].parse().unwrap_or(0));
+                println!("impl: {}", show_gaps(&hook::gap_blocks(&held, toks[1].parse().unwrap_or(0))));
+                for f in &run.fails { println!("ORACLE-FAIL {} {}", f.signature, f.detail); }
+                return;
+            }
+            Some("istream") => {
+                let mut s = hook::VInboundStream::new();
+                let mut own: Option<u16> = None;
+                for t in &toks[1..] {
+                    let f: Vec<&str> = t.split(',').collect();
+                    match f[0] {
+                        "e" => { let ssn: u16 = f[1].parse().unwrap_or(0); let data = crate::unhex(f[2]);
+                            let d = s.enqueue(ssn, Bytes::from(data.clone()));
+                            println!("enqueue {ssn}: delivered {} next_ssn={}", d.len(), s.next_ssn());
+                            if own == Some(ssn) && (d.len() != 1 || d[0].as_ref() != data.as_slice()) { println!("ORACLE-FAIL istream:in-order-message-not-delivered-exactly-once ssn {ssn}"); }
+                            own = Some(ssn.wrapping_add(1)); }
+                        "d" => { let d = s.drain_ready(); println!("drain: delivered {}", d.len()); }
+                        "a" => { let ssn: u16 = f[1].parse().unwrap_or(0); s.advance_ssn_to(ssn); own = Some(ssn.wrapping_add(1)); println!("advance {ssn}: next_ssn={}", s.next_ssn()); }
+                        _ => {}
+                    }
+                }
+                return;
+            }
+            Some("sack") if toks.len() >= 6 => {
+                let gaps: Vec<(u16, u16)> = if toks[2] == "-" { vec![] } else { toks[2].split(',').filter_map(|g| { let (a, b) = g.split_once('-')?; Some((a.parse().ok()?, b.parse().ok()?)) }).collect() };
+                let recs: Vec<hook::VRecord> = toks[6..].iter().filter_map(|t| { let f: Vec<&str> = t.split(',').collect(); if f.len() != 11 { return None; }
+                    let mut r = mk_rec(f[0].parse().ok()?, f[1].parse().ok()?); r.sent_ms = f[2].parse().ok()?; r.transmit_count = f[3].parse().ok()?; r.missing_reports = f[4].parse().ok()?;
+                    r.abandoned = f[5] == "1"; r.fast_retransmit = f[6] == "1"; r.needs_retransmit = f[7] == "1"; r.fast_retransmit_ms = f[8].parse().ok(); r.in_flight = f[9] == "1"; r.acked = f[10] == "1"; Some(r) }).collect();
+                let mut run = Run::new("c01", &format!("{}/replay", args.out));
+                emit_sack(&mut run, &recs, toks[1].parse().unwrap_or(0), &gaps, toks[3].parse().unwrap_or(0), toks[4] == "1", toks[5].parse().unwrap_or(8));
+                for f in &run.fails { println!("ORACLE-FAIL {} {}", f.signature, f.detail); }
+                println!("(see {}/replay/impl.txt for the implementation's output line)", args.out);
+                return;
+            }
+            _ => {}
+        }
         let Some(c) = parse_case(case) else { println!("cannot parse case: {case}"); return; };
         let o = run_one(&c, 40_000);
         println!("case: {}", case_text(&c));
